@@ -33,3 +33,4 @@ Example C07_nonvacuous :
   m_eval (Bin Div (Lit I32 1) (Lit I32 0)) = ErrDivZero /\
   m_eval (Bin Add (Lit U64 18446744073709551615) (Lit I8 (-1))) = Val (-2).
 Proof. vm_compute. repeat split; reflexivity. Qed.
+Print Assumptions C07_nonvacuous.
